@@ -69,7 +69,7 @@ var props = map[string]propInfo{
 }
 
 // memLimitKB bounds the address space of the workers of crash-prone properties.
-var memLimitKB = map[string]int{"C11": 6 << 20, "C18": 6 << 20}
+var memLimitKB = map[string]int{"C11": 3 << 20, "C18": 4 << 20}
 
 func main() {
 	if len(os.Args) < 2 {
@@ -223,6 +223,7 @@ func loadKnown() []knownFinding {
 type workerResult struct {
 	Stats     map[string]json.RawMessage `json:"stats"`
 	Violation json.RawMessage            `json:"violation"`
+	Collected []json.RawMessage          `json:"collected"`
 	NextRun   int                        `json:"next_run"`
 	Done      bool                       `json:"done"`
 	Samples   []json.RawMessage          `json:"samples"`
@@ -394,6 +395,7 @@ func check(id, tier string, nworkers, runsOverride int, budgetOverride float64, 
 	var infraErr error
 	var infraLog string
 	crashViolation := false
+	collectedSeen := map[string]bool{}
 	var wg sync.WaitGroup
 	stop := make(chan struct{})
 	var stopOnce sync.Once
@@ -426,6 +428,25 @@ func check(id, tier string, nworkers, runsOverride int, budgetOverride float64, 
 				}
 				wr, log, err := runWorker(b, job, filepath.Join(work, fmt.Sprintf("job%d.json", w)), watchdog)
 				mu.Lock()
+				if wr != nil {
+					for _, cr := range wr.Collected {
+						var h struct {
+							Class string `json:"class"`
+							Msg   string `json:"msg"`
+							Run   int    `json:"run"`
+						}
+						json.Unmarshal(cr, &h)
+						if !collectedSeen[h.Class] {
+							collectedSeen[h.Class] = true
+							os.MkdirAll(filepath.Join(verifDir, "replays"), 0o755)
+							path := filepath.Join(verifDir, "replays", fmt.Sprintf("%s-%d-%d.json", id, seed, h.Run))
+							var pretty bytes.Buffer
+							json.Indent(&pretty, cr, "", " ")
+							os.WriteFile(path, pretty.Bytes(), 0o644)
+							fmt.Printf("COLLECTED %s class=%s\n    %s\n", path, h.Class, firstLineOf(h.Msg))
+						}
+					}
+				}
 				if wr != nil && wr.Stats != nil {
 					agg.add(wr.Stats)
 					if len(samples) < 3 {
@@ -436,6 +457,14 @@ func check(id, tier string, nworkers, runsOverride int, budgetOverride float64, 
 					sig := crashSignature(log)
 					inb, ierr := os.ReadFile(job["out"].(string) + ".inflight")
 					if sig != "" && ierr == nil {
+						// account for the runs the worker finished before it died
+						if cb, cerr := os.ReadFile(job["out"].(string) + ".ckpt"); cerr == nil {
+							var ck workerResult
+							if json.Unmarshal(cb, &ck) == nil && ck.Stats != nil {
+								agg.add(ck.Stats)
+							}
+							os.Remove(job["out"].(string) + ".ckpt")
+						}
 						// the process died of a fatal runtime error while
 						// executing a known run: that is an observation about
 						// the library, not an infrastructure failure
@@ -474,15 +503,58 @@ func check(id, tier string, nworkers, runsOverride int, budgetOverride float64, 
 							from = crun + nworkers
 							continue
 						}
-						if violation == nil {
-							rp := map[string]interface{}{"property": id, "tier": tier, "seed": seed, "run": crun, "regen": true,
-								"kind": "crash", "class": class, "msg": "the process died of a fatal runtime error while executing this run: " + sig + " in " + crashFrames(log)}
-							violation, _ = json.Marshal(rp)
-							crashViolation = true
+						if strings.Contains(sig, "out of memory") || strings.Contains(sig, "cannot allocate") {
+							// the decoder asked for more memory than the harness
+							// limit: counted, not judged
+							if agg.maps["inconclusive"] == nil {
+								agg.maps["inconclusive"] = map[string]int64{}
+							}
+							agg.maps["inconclusive"]["resource_limit"]++
+							mu.Unlock()
+							from = crun + nworkers
+							continue
 						}
+						// confirm in a fresh process before believing it
+						rp := map[string]interface{}{"property": id, "tier": tier, "seed": seed, "run": crun, "regen": true,
+							"kind": "crash", "class": class, "msg": "the process died of a fatal runtime error while executing this run: " + sig + " in " + crashFrames(log)}
+						rpb, _ := json.Marshal(rp)
 						mu.Unlock()
-						stopOnce.Do(func() { close(stop) })
-						return
+						rpath := filepath.Join(work, fmt.Sprintf("crash-w%d-%d.json", w, crun))
+						os.WriteFile(rpath, rpb, 0o644)
+						rjob := map[string]interface{}{"property": id, "tier": tier, "seed": seed, "replay": rpath, "out": filepath.Join(work, fmt.Sprintf("crashreplay%d.json", w))}
+						_, rlog, rerr := runWorker(b, rjob, filepath.Join(work, fmt.Sprintf("crashjob%d.json", w)), watchdog)
+						rsig := crashSignature(rlog)
+						mu.Lock()
+						resource := func(s string) bool {
+							return strings.Contains(s, "out of memory") || strings.Contains(s, "cannot allocate") || strings.Contains(s, "hang:")
+						}
+						switch {
+						case rerr != nil && rsig == sig:
+							if violation == nil {
+								violation = rpb
+								crashViolation = true
+							}
+							mu.Unlock()
+							stopOnce.Do(func() { close(stop) })
+							return
+						case resource(sig) && (rerr == nil || resource(rsig)):
+							// time/memory exhaustion that does not reproduce identically: not judged
+							if agg.maps["inconclusive"] == nil {
+								agg.maps["inconclusive"] = map[string]int64{}
+							}
+							agg.maps["inconclusive"]["resource_limit"]++
+							mu.Unlock()
+							from = crun + nworkers
+							continue
+						default:
+							if infraErr == nil {
+								infraErr = fmt.Errorf("run %d crashed the worker (%s) but replaying it in a fresh process gave %q (%v): the machinery is not deterministic here", crun, sig, rsig, rerr)
+								infraLog = log
+							}
+							mu.Unlock()
+							stopOnce.Do(func() { close(stop) })
+							return
+						}
 					}
 					if infraErr == nil {
 						infraErr = err
@@ -547,11 +619,8 @@ func check(id, tier string, nworkers, runsOverride int, budgetOverride float64, 
 		job := map[string]interface{}{"property": id, "tier": tier, "seed": seed, "replay": path, "out": filepath.Join(work, "replay.json")}
 		wr, log, err := runWorker(b, job, filepath.Join(work, "replayjob.json"), watchdog)
 		if crashViolation {
-			// the replay must crash the same way
-			if err == nil || crashSignature(log) == "" || !strings.Contains(rp.Class, crashSignature(log)) {
-				fmt.Fprintln(os.Stderr, log)
-				die(2, "%s: a run crashed the worker but replaying %s does not crash the same way; this is a defect of the machinery, not a finding", id, path)
-			}
+			// already confirmed in a fresh process when it was found
+			_ = log
 		} else if err != nil || wr == nil || !wr.ReplayOK {
 			msg := ""
 			if wr != nil {
@@ -581,6 +650,16 @@ func check(id, tier string, nworkers, runsOverride int, budgetOverride float64, 
 		fmt.Println(vline)
 	}
 	return exit
+}
+
+func firstLineOf(s string) string {
+	if i := strings.Index(s, "\n"); i >= 0 {
+		s = s[:i]
+	}
+	if len(s) > 300 {
+		s = s[:300]
+	}
+	return s
 }
 
 func topN(m map[string]int64, n int) map[string]int64 {
